@@ -34,6 +34,7 @@ type c05Round struct {
 	Gate      string // "" | "write.locked" | "write.pre_flush": hold the first writer there while the others try
 	MaxSize   int
 	StopMid   bool // the client reads nothing until Stop has been called while the handlers are stalled in Write
+	BadFirst  bool // every writer first tries to write a response that cannot be encoded (a typed nil; the panic is recovered by the handler)
 	WTimeout  int  // ms; > 0: the server is created WithWriteTimeout and the client reads nothing until the write deadline has expired
 }
 
@@ -117,6 +118,9 @@ func C05(args []string) error {
 		add(c05Round{Writers: 8, Frames: 500, Transport: tr, MaxSize: 3500, Procs: 4, StopMid: true})
 		add(c05Round{Writers: 8, Frames: 3, Transport: tr, MaxSize: 3 << 20, Procs: 4, StopMid: true})
 	}
+	// a Write that panics while it encodes its response (recovered by the handler) leaves the connection's writer as it was
+	add(c05Round{Writers: 8, Frames: 4, Transport: "plain", MaxSize: 9000, Procs: 4, BadFirst: true})
+	add(c05Round{Writers: 3, Frames: 3, Transport: "tls", MaxSize: 300, Procs: 2, BadFirst: true})
 	// WithWriteTimeout: the client stalls the writers beyond the connection's write deadline, then reads again
 	add(c05Round{Writers: 6, Frames: 3, Transport: "plain", MaxSize: 3 << 20, Procs: 4, WTimeout: 400})
 	add(c05Round{Writers: 12, Frames: 4, Transport: "plain", MaxSize: 2 << 20, Procs: 16, WTimeout: 300})
@@ -179,6 +183,13 @@ func c05Run(rd c05Round, out *hx.Out, seed int64, tm *tlsMaterial) error {
 		hwg.Add(1)
 		defer hwg.Done()
 		started <- struct{}{}
+		if rd.BadFirst {
+			func() {
+				defer func() { _ = recover() }()
+				var none *gldap.BindResponse
+				_ = w.Write(none)
+			}()
+		}
 		for k := 1; k <= rd.Frames; k++ {
 			body := payload(wid, k, sizes(wid, k), seed)
 			var resp gldap.Response
